@@ -114,6 +114,7 @@ class Spaces:
         return b[0] if b else None
 
 
+VARPERM_ELEM = {}    # lambda function id -> declId of its parameter, when the lambda is applied to the elements of var_perm_ in position order
 HELPERS = {}         # qualified name -> function (unique names only): helpers whose index uses are charged to their call sites
 _SUMMARY = {}
 
@@ -313,6 +314,18 @@ class FuncTyper:
     def ty_rest(self, e, vk):
         k = e["k"]
         S = self.S
+        if k == "UnaryOperator" and e.get("op") == "*":
+            # *p where p walks an array of the model (const int* p = a.index_; ...; ++p): an element of that array
+            b_ = strip(kids(e)[0])
+            v_ = self.locals.get(b_.get("declId")) if b_ is not None and b_["k"] == "DeclRefExpr" else None
+            if v_ is not None and kids(v_) and "*" in (v_.get("ct") or v_.get("t") or ""):
+                name_ = self.alias(kids(v_)[0])
+                if name_ is not None:
+                    S.sites += 1
+                    val_ = self.val_of(name_)
+                    if val_ in ("K", "KP") and vk is not None:
+                        val_ = {("K", True): "C", ("KP", True): "P", ("K", False): "K", ("KP", False): "K"}[(val_, vk)]
+                    return val_
         if k == "MemberExpr":
             ks = kids(e)
             nm = e.get("name")
@@ -327,6 +340,10 @@ class FuncTyper:
                         S.sites += 1
                         self.require(bs[1], it, AXIOM_DOM[name], "subscript of %s" % name, vk)
                         return AXIOM_VAL[name]
+                # the element of var_perm_ visited by an algorithm over its positions: `.second` is the caller column at that position
+                if nm == "second" and base is not None and base["k"] == "DeclRefExpr" and VARPERM_ELEM.get(self.f.id) == base.get("declId"):
+                    S.sites += 1
+                    return AXIOM_VAL["var_perm_.second"]
                 # val.first of a suffix entry read from the file
                 if nm == "first" and base is not None and base["k"] == "DeclRefExpr":
                     v = self.locals.get(base.get("declId"))
@@ -712,6 +729,28 @@ def run(rep, ctx):
                 return lp, None, sinks[0], "the counter is assigned inside the body"
         return lp, v, sinks[0], ""
 
+    def foreach_form(f, sinkname):
+        """(lambda function, sink call) when f feeds by std::for_each(var_perm_.begin(), var_perm_.begin() + k | var_perm_.end(), lambda)
+        with exactly one unconditional sink call in the lambda, else None"""
+        own = [c for c in f.walk() if c["k"] == "CXXMemberCallExpr" and c.get("callee", "").split("::")[-1] == sinkname]
+        if own:
+            return None
+        fes = [c for c in f.walk() if c["k"] == "CallExpr" and (c.get("callee") or "").split("::")[-1] == "for_each" and len(call_args(c)) == 3]
+        if len(fes) != 1:
+            return None
+        a0, a1 = [render(x).replace(" ", "").replace("this->", "") for x in call_args(fes[0])[:2]]
+        if a0 != "var_perm_.begin()" or not (a1 == "var_perm_.end()" or a1.startswith("var_perm_.begin()+")):
+            return None
+        lam = next((x for x in walk(call_args(fes[0])[2]) if x["k"] == "LambdaExpr"), None)
+        Ls = [g for g in funcs if g.qn == f.qn + "::(lambda)::operator()" and (lam is None or (g.loc or "").rsplit(":", 2)[0] == (lam.get("l") or "").rsplit(":", 2)[0])]
+        for L in Ls:
+            sk = [c for c in L.walk() if c["k"] == "CXXMemberCallExpr" and c.get("callee", "").split("::")[-1] == sinkname]
+            if len(sk) == 1 and len(L.params) == 1 and not L.cfg.facts_at(sk[0]) and \
+                    not [a for a in L.ancestors(sk[0]) if a["k"] in ("ForStmt", "WhileStmt", "DoStmt", "CXXForRangeStmt")]:
+                VARPERM_ELEM[L.id] = L.params[0]["declId"]
+                return L, sk[0]
+        return None
+
     analysed = 0
     per_func_conf = {}
     typers = []
@@ -722,7 +761,19 @@ def run(rep, ctx):
             for f in all_of(cls + "::" + nm):
                 T = FuncTyper(f, S)
                 T.sink_calls = []
-                if nm in seq_axioms:
+                fe_ = foreach_form(f, seq_axioms[nm]) if nm in seq_axioms else None
+                if fe_ is not None:
+                    # the feed is an algorithm over the positions of var_perm_: element k is position k by construction
+                    L_, sink_ = fe_
+                    f1.ok("%s|%s|sequential" % (nm, inst(f)), short_loc(sink_.get("l")),
+                          "the k-th %s call is NL position k (std::for_each over var_perm_ from its first element, one call per element)" % seq_axioms[nm])
+                    TL_ = FuncTyper(L_, S)
+                    TL_.sink_calls = []
+                    before_l = len(S.conflicts)
+                    TL_.run()
+                    typers.append((TL_, f1, nm))
+                    per_func_conf[(nm, inst(f) + "|lambda")] = (L_, before_l, len(S.conflicts))
+                elif nm in seq_axioms:
                     lp, v, sink, why = seq_loop(f, seq_axioms[nm])
                     if v is None:
                         f1.fail("%s|%s|sequential" % (nm, inst(f)), short_loc(sink.get("l")), "%s: %s" % (nm, why))
